@@ -458,11 +458,28 @@ func (d *Datastore) TransactionSet(ctx context.Context, transactionId string, tr
 		return nil, err
 	}
 
+	// a dry run or a failed validation changed nothing, there is nothing to confirm or to roll back
+	// and no rollback timer is running: the transaction is released right away (via the guard)
+	if dryRun || transactionResponseHasErrors(response) {
+		log.Infof("Transaction: %s - not applied, released", transactionId)
+		return response, nil
+	}
+
 	// Mark the transaction as successfully committed
 	transactionGuard.Success()
 
 	log.Infof("Transaction: %s - transacted", transactionId)
 	return response, err
+}
+
+// transactionResponseHasErrors reports if any of the intents of the response carries (validation) errors
+func transactionResponseHasErrors(rsp *sdcpb.TransactionSetResponse) bool {
+	for _, intent := range rsp.GetIntents() {
+		if len(intent.GetErrors()) > 0 {
+			return true
+		}
+	}
+	return false
 }
 
 func cacheUpdateToSdcpbUpdate(lvs tree.LeafVariantSlice) ([]*sdcpb.Update, error) {
